@@ -246,7 +246,11 @@ def roundtrip_case(rng, key):
         o["number_of_processors"] = np_
     return {"geometry": geom, "options": o, "np": np_,
             "wall": rng.choice(("rect", "slanted")), "sched_seed": rng.randrange(10**6),
-            "gfile_name": rng.choice(("in.geqdsk", "g012345.00100", "shot 7.eqdsk"))}
+            "gfile_name": rng.choice(("in.geqdsk", "g012345.00100", "shot 7.eqdsk")),
+            # real g-files often start with blanks and end with blank lines or a trailer;
+            # "byte-exact" must hold for those too
+            "decorate": rng.choice(("none", "leading_spaces", "trailing_blank_lines",
+                                    "both", "trailing_comment"))}
 
 
 def run_roundtrip(case):
@@ -266,6 +270,13 @@ def run_roundtrip(case):
         arrs = workloads.tokamak_arrays(case["geometry"], wall=case["wall"])
         with workloads.env_seams():
             text = workloads.geqdsk_text(arrs)
+        deco = case.get("decorate", "none")
+        if deco in ("leading_spaces", "both"):
+            text = "  " + text
+        if deco in ("trailing_blank_lines", "both"):
+            text = text + "\n  \n\n"
+        if deco == "trailing_comment":
+            text = text + " end of file written by hsim\n\t\n"
         gname = case["gfile_name"]
         with open(os.path.join(a, gname), "w", newline="") as f:
             f.write(text)
